@@ -345,6 +345,10 @@ func c17Cases() []enumCase {
 				if s != want {
 					return []string{"family-dispatch"}
 				}
+				if v == 0 && s != ifds.CameraModelUnknown.String() {
+					// 0x10000, 0x20000, ...: the "unknown model of this make" constants have no name of their own
+					return []string{"unknown-model-constant-formats-with-a-name"}
+				}
 				return nil
 			}})
 	}
